@@ -44,3 +44,5 @@
 (define-fun modeSymlinkBit ((m Int)) Bool (= (mod (div m 134217728) 2) 1))   ; fs.ModeSymlink = 1<<27
 (define-fun modeDirBit ((m Int)) Bool (= (mod (div m 2147483648) 2) 1))      ; fs.ModeDir = 1<<31
 (declare-fun TrimSpace (String) String)
+(declare-fun Rel (String String) String)
+(declare-fun RelErr (String String) Bool)
